@@ -84,4 +84,10 @@ CHECKS = {
         "text": "Pairs/triples of temperature point units (library + generated rational scale and origin) are combined in every ordering; the common point unit's type must be order-independent; converting x = 0, 1, 7 from each input must give m*x + b with m a positive integer equal to the exact scale ratio and b a non-negative integer consistent with one common origin; an input that already has that scale and origin must be the result type.",
         "note": "Trusted: Fraction model of (scale, origin) written from the unit definitions; library lists the policy refuses are counted, not judged.",
     },
+    "C18": {
+        "module": ("vf.props.c18", "C18"), "engine": "planeB",
+        "technique": "runtime monitoring under AddressSanitizer: every label byte read and the string parsed back by a grammar-based oracle into (dimension, magnitude), compared with the exact model; IToA/UIToA and operator<< vs decimal rendering",
+        "text": "Labels of generated unit expressions (C02 generator, integer/rational scalings of every decimal length up to 2^64-1, labeled/unlabeled strong typedefs, prefixes, common units) are read byte by byte under ASan (sizeof == strlen+1, NUL terminated, trait == function form), parsed with the documented grammar over the labels of the named units involved, and every reading must denote the unit's exact dimension and magnitude; unlabeled units must print the generic marker; IToA/UIToA boundary and random arguments and streaming of every rep are compared with decimal text; labels must be identical across compilers.",
+        "note": "Trusted: vf/props/c18.py parser (accepts any reading that matches, so ambiguity can only lose detection), vf/model.py. Factor order inside a product is unspecified and therefore not compared textually.",
+    },
 }
